@@ -40,8 +40,8 @@ func marshalRootFull(pj *simdjson.ParsedJson, docs []*ref.Node, c Cfg) (what, fp
 	if v != ref.Valid {
 		return fmt.Sprintf("output is not valid JSON (%v): %s", v, clip(string(out))), "invalid-output"
 	}
-	if got, want := renderDocs(back, renderNum), renderDocs(docs, renderNum); got != want {
-		return fmt.Sprintf("output denotes %s, document is %s", clip(got), clip(want)), "different-document"
+	if !ref.NumericEqualDocs(docs, back) {
+		return fmt.Sprintf("output denotes %s, document is %s", clip(renderDocs(back, renderNum)), clip(renderDocs(docs, renderNum))), "different-document"
 	}
 	// fixed point
 	pj2, perr, p := doParse(c, out, nil, nd)
@@ -71,7 +71,7 @@ func marshalForEach(pj *simdjson.ParsedJson, docs []*ref.Node) (what, fp string)
 			return err
 		}
 		got, ok := parseAnyValue(out)
-		if !ok || n >= len(docs) || got.RenderNumeric() != docs[n].RenderNumeric() {
+		if !ok || n >= len(docs) || !ref.NumericEqual(docs[n], got) {
 			what, fp = fmt.Sprintf("ForEach iterator %d marshals to %s", n, clip(string(out))), "foreach-iter-value"
 			return fmt.Errorf("stop")
 		}
